@@ -94,6 +94,41 @@ pub struct Hist<'a, C: MlsConfig> {
     pub last_commit_epoch_ok: bool,
 }
 
+#[derive(Clone, Debug, Default)]
+pub struct Edits {
+    pub rm: Vec<u32>,
+    pub up: Vec<(u32, usize, usize, usize)>,
+    pub add: Vec<(usize, usize, usize)>,
+}
+
+fn list_u32(v: &[u32]) -> String {
+    if v.is_empty() {
+        "-".into()
+    } else {
+        v.iter().map(|x| x.to_string()).collect::<Vec<_>>().join(",")
+    }
+}
+
+/// Rename the stamps that are not in `known` to 1000001, 1000002, … by first appearance in node order.
+pub fn canon_tree(t: &[ANode], known: &BTreeSet<usize>) -> Vec<ANode> {
+    let mut ren: BTreeMap<usize, usize> = BTreeMap::new();
+    let mut f = |x: usize, ren: &mut BTreeMap<usize, usize>| {
+        if known.contains(&x) {
+            x
+        } else {
+            let n = 1_000_001 + ren.len();
+            *ren.entry(x).or_insert(n)
+        }
+    };
+    t.iter()
+        .map(|n| match n {
+            ANode::Blank => ANode::Blank,
+            ANode::Leaf { ident, hpke, sig } => ANode::Leaf { ident: f(*ident, &mut ren), hpke: f(*hpke, &mut ren), sig: f(*sig, &mut ren) },
+            ANode::Parent { key, unmerged } => ANode::Parent { key: f(*key, &mut ren), unmerged: unmerged.clone() },
+        })
+        .collect()
+}
+
 fn name_of(n: usize) -> String {
     let c = (b'A' + (n % 26) as u8) as char;
     if n < 26 {
@@ -464,6 +499,33 @@ impl<'a, C: MlsConfig> Hist<'a, C> {
             _ => vec![],
         };
         self.rep.commits += 1;
+        // abstract edits of this commit for the tree-layer model
+        let mut e_rm: Vec<u32> = vec![];
+        let mut e_up: Vec<(u32, usize, usize, usize)> = vec![];
+        let mut e_add: Vec<(usize, usize, usize)> = vec![];
+        if let Some(CommitEffect::NewEpoch(ne)) = cdesc.as_ref().map(|d| &d.effect) {
+            for p in &ne.applied_proposals {
+                match &p.proposal {
+                    mls_rs::group::proposal::Proposal::Remove(r) => e_rm.push(r.to_remove()),
+                    mls_rs::group::proposal::Proposal::Update(_) => {
+                        if let (mls_rs::group::Sender::Member(idx), Some((id, hp, sg))) = (&p.sender, mls_rs::verif::proposal::leaf_keys(&p.proposal)) {
+                            e_up.push((*idx, self.w.stamps.of(&id), self.w.stamps.of(&hp), self.w.stamps.of(&sg)));
+                        }
+                    }
+                    mls_rs::group::proposal::Proposal::Add(_) => {
+                        if let Some((id, hp, sg)) = mls_rs::verif::proposal::leaf_keys(&p.proposal) {
+                            e_add.push((self.w.stamps.of(&id), self.w.stamps.of(&hp), self.w.stamps.of(&sg)));
+                        }
+                    }
+                    _ => {}
+                }
+            }
+        }
+        let edits = Edits { rm: e_rm, up: e_up, add: e_add };
+        let mut priv_before: BTreeMap<usize, (u32, Vec<bool>)> = BTreeMap::new();
+        for &i in &active {
+            priv_before.insert(i, self.w.priv_bits(i));
+        }
         // ---- everyone else processes it ------------------------------------------------------------
         let mut now_removed: Vec<usize> = vec![];
         for &i in &active {
@@ -553,7 +615,7 @@ impl<'a, C: MlsConfig> Hist<'a, C> {
         if let Err(e) = agreement(&self.w, &now) {
             self.fail("C01", format!("after m{cmi} ({detail}): {e}"));
         }
-        self.tree_oracles(c, cmi, &tree_before, cleaf, &seals, &joiners);
+        self.tree_oracles(c, cmi, &tree_before, cleaf, &seals, &joiners, &edits, &priv_before, &active, out.contains_update_path);
         self.ghost_oracle(cmi);
         // ---- occasionally persist and reload (C06) ---------------------------------------------------
         for &i in &now {
@@ -623,7 +685,20 @@ impl<'a, C: MlsConfig> Hist<'a, C> {
     }
 
     /// C08 / C09 / C02 oracles on the real trees and private keys, and the tree-layer query stream.
-    pub fn tree_oracles(&mut self, c: usize, cmi: usize, tree_before: &[ANode], cleaf: u32, seals: &[(Vec<u8>, Vec<u8>)], joiners: &[usize]) {
+    #[allow(clippy::too_many_arguments)]
+    pub fn tree_oracles(
+        &mut self,
+        c: usize,
+        cmi: usize,
+        tree_before: &[ANode],
+        cleaf: u32,
+        seals: &[(Vec<u8>, Vec<u8>)],
+        joiners: &[usize],
+        edits: &Edits,
+        priv_before: &BTreeMap<usize, (u32, Vec<bool>)>,
+        active_before: &[usize],
+        has_path: bool,
+    ) {
         let now = self.active();
         let cname = self.w.members[c].setup.name.clone();
         let nodes: Vec<Option<Node>> = self.w.group(c).verif_nodes().iter().cloned().collect();
@@ -682,7 +757,6 @@ impl<'a, C: MlsConfig> Hist<'a, C> {
         let _ = welcome_recipients;
         // C09: after a path commit every non-blank node on the committer's direct path has a fresh key
         let new_cleaf = self.leaf_of(c);
-        let has_path = !path_recipients.is_empty() || seals.iter().any(|(_, i)| i.windows(14).any(|w| w == b"UpdatePathNode"));
         if has_path {
             let n_leaves = ((tree_after.len() / 2 + 1) as u32).next_power_of_two();
             for (p, _) in mls_rs::verif::tree_math::direct_copath(2 * new_cleaf, n_leaves) {
@@ -744,14 +818,93 @@ impl<'a, C: MlsConfig> Hist<'a, C> {
                 }
             }
         }
-        // tree-layer stream for the Lean model
+        // tree-layer stream for the Lean model (Model.Tree): the commit as a tree transformation, the
+        // receivers' private-slot updates, the joiners' slots, and the key invariant on every member
+        let bits = |b: &[bool]| {
+            let s: String = b.iter().map(|x| if *x { '1' } else { '0' }).collect();
+            let s = s.trim_end_matches('0').to_string();
+            if s.is_empty() {
+                "-".to_string()
+            } else {
+                s
+            }
+        };
+        let new_leaf_str = if has_path {
+            match tree_after.get(2 * new_cleaf as usize) {
+                Some(ANode::Leaf { ident, hpke, sig }) => format!("{ident}:{hpke}:{sig}"),
+                _ => "-".into(),
+            }
+        } else {
+            "-".into()
+        };
+        let mut known: BTreeSet<usize> = before_keys.clone();
+        for n in tree_before {
+            if let ANode::Leaf { ident, sig, .. } = n {
+                known.insert(*ident);
+                known.insert(*sig);
+            }
+        }
+        for (_, a, b, cc) in &edits.up {
+            known.extend([*a, *b, *cc]);
+        }
+        for (a, b, cc) in &edits.add {
+            known.extend([*a, *b, *cc]);
+        }
+        if let Some(ANode::Leaf { ident, hpke, sig }) = tree_after.get(2 * new_cleaf as usize) {
+            if has_path {
+                known.extend([*ident, *hpke, *sig]);
+            }
+        }
+        let joiner_leaves_sorted = {
+            let mut v = joiner_leaves.clone();
+            v.sort();
+            v
+        };
+        let mut rec = path_recipients.clone();
+        rec.sort();
+        let path_bits: Vec<bool> = {
+            let n_leaves = ((tree_after.len() / 2 + 1) as u32).next_power_of_two();
+            mls_rs::verif::tree_math::direct_copath(2 * new_cleaf, n_leaves)
+                .iter()
+                .map(|(p, _)| matches!(tree_after.get(*p as usize), Some(ANode::Parent { key, .. }) if !before_keys.contains(key)))
+                .collect()
+        };
         if let Some(qa) = self.tree_qa.as_deref_mut() {
-            let mut rec = path_recipients.clone();
-            rec.sort();
             qa.put(
-                &format!("shape {}", tree_str(&tree_after)),
-                &format!("ok {}", tree_after.len()),
+                &format!(
+                    "commit {} c={} rm={} up={} add={} newleaf={}",
+                    tree_str(tree_before),
+                    cleaf,
+                    list_u32(&edits.rm),
+                    if edits.up.is_empty() { "-".into() } else { edits.up.iter().map(|(l, a, b, c)| format!("{l}:{a}:{b}:{c}")).collect::<Vec<_>>().join(",") },
+                    if edits.add.is_empty() { "-".into() } else { edits.add.iter().map(|(a, b, c)| format!("{a}:{b}:{c}")).collect::<Vec<_>>().join(",") },
+                    new_leaf_str
+                ),
+                &format!(
+                    "{} added={} seals={} pathbits={}",
+                    tree_str(&canon_tree(&tree_after, &known)),
+                    list_u32(&joiner_leaves_sorted),
+                    if rec.is_empty() { "-".into() } else { rec.iter().map(|x| x.to_string()).collect::<Vec<_>>().join(",") },
+                    if has_path { bits(&path_bits) } else { "-".to_string() }
+                ),
             );
+        }
+        let all_added = joiner_leaves.len() == edits.add.len();
+        for &i in &now {
+            let (leaf, b) = self.w.priv_bits(i);
+            let is_joiner = joiners.contains(&i);
+            if let Some(qa) = self.tree_qa.as_deref_mut() {
+                qa.put(&format!("slots {leaf}"), &bits(&b));
+                if i != c && !is_joiner && has_path && active_before.contains(&i) {
+                    if let Some((_, bb)) = priv_before.get(&i) {
+                        let own = edits.up.iter().any(|(l, ..)| *l == leaf);
+                        qa.put(&format!("recv {leaf} {} own={}", bits(bb), own as u8), &bits(&b));
+                    }
+                }
+                if is_joiner && all_added {
+                    qa.put(&format!("joiner {leaf} path={}", has_path as u8), &bits(&b));
+                }
+            }
         }
         self.rep.cover.insert(format!("commit:path={}:depth={}:joiners={}", has_path as u8, depth, joiners.len().min(3)));
     }
